@@ -625,8 +625,7 @@ def scenarios(ctx, root, log, thorough=False):
     if thorough:
         HD = TableSet(root, 6, {'H2O': un, 'CH4': coarse}, W4, 0.0, container='hdf5')
         sc += [TableScenario('table:config-hdf5-P', log, HD, 'CH4', [between(coarse, 2, 6)], Tc, Pc, configs=CT, vary=('config', 'T', 'P')),
-               M('direct:config', log, 'direct', ['config', 'T', 'kset'], dict(V, config=CH, kset=[H, A], T=Te), dict(dflt, T=1500.0, window=Wlin[0])),
-               M('transmission:config-two', log, 'transmission', ['config', 'mix2', 'mode'], dict(V, config=CE), dict(dflt, kset=HD, window=FULL))]
+               M('direct:config', log, 'direct', ['config', 'T', 'kset'], dict(V, config=CH, kset=[H, A], T=Te), dict(dflt, T=1500.0, window=Wlin[0]))]
         sc += [TableScenario('table:beyond', log, A, 'H2O', [linwin(350.0, 1050.0, 8), linwin(4250.0, 4950.0, 8), run_of(un, 0, 8)], Tn, Pn),
                TableScenario('table:second-molecule', log, D, 'CH4', [run_of(coarse, 2, 6), run_of(coarse, 11, 6), between(coarse, 2, 6)], Tn, Pn),
                M('direct:windows', log, 'direct', ['window', 'mode', 'T'], dict(V, window=Wrun, T=Te), dict(dflt, T=1500.0)),
